@@ -25,6 +25,9 @@
 //   h<id>             resumed after a reschedule inside the critical section
 //   x<id>             critical section left, the unlock call begins          o<id>   the unlock call has returned
 //   f<id>             coroutine finished
+//   z <p> <s> <w>     at every release of the spinlock: `_readers_pass`, `_readers_size`, `_writers_prio` as the section
+//                     left them (read by the tracing hook; compared with the model section by section)
+//   end <p> <s> <w>   everybody has finished; the same three fields
 //
 // EXPLORER REDUCTIONS (this harness only, see MyChoose / MyPick):
 //   * a fiber about to spin on the held spinlock is not offered as a choice: it yields at once and is not scheduled
@@ -34,6 +37,10 @@
 //     `_readers_wait` (the second shared atomic of a section; everything else in a section is protected by the lock or
 //     is the section's single access to `_state`, which is where the model places the section's event);
 //   * --param yields=named: a switch is offered only before operations on the three named words and the harness' tick.
+//   With --yield-at after|both the same rules are applied at the InjectFault() behind the operation ("before" reads
+//   "behind"): the switch behind the releasing store of the spinlock is offered (the lock is free there), the one behind
+//   the acquiring exchange is not under sections=atomic; a fiber is parked in front of the held lock only at the
+//   InjectFault() in front of its exchange / load.
 #include <deque>
 #include <set>
 
@@ -354,8 +361,13 @@ struct Red {
   const volatile void* spin = nullptr;   // the spinlock word of the mutex under test
   const volatile void* rwait = nullptr;  // _readers_wait
   const volatile void* tickp = nullptr;
+  const std::uint32_t* pass = nullptr;   // the plain fields protected by the spinlock (read at every release)
+  const std::uint32_t* size = nullptr;
+  const std::uint32_t* prio = nullptr;
   std::uint64_t holder = 0;              // fiber that holds the spinlock (valid while the word is 1)
   std::uint32_t before = 0;              // value of the spinlock word before the operation in progress
+  const volatile void* obj = nullptr;    // object / name of the operation the running fiber is at (set by both hooks)
+  std::string op;
   std::set<std::uint64_t> blocked;       // fibers parked by the explorer in front of the held spinlock
   bool atomic_sections = false;
   bool named_only = false;
@@ -374,25 +386,47 @@ Ctx* gC = nullptr;
 
 void MyBefore(const volatile void* obj, const char* op) {
   vrt::detail::Before(obj, op);
-  if (vrt::g.active && obj == gR.spin) {
-    std::memcpy(&gR.before, const_cast<const void*>(obj), sizeof gR.before);
+  if (vrt::g.active) {
+    gR.obj = obj;
+    gR.op = op;
+    if (obj == gR.spin) {
+      std::memcpy(&gR.before, const_cast<const void*>(obj), sizeof gR.before);
+    }
   }
 }
 
 void MyAfter(const volatile void* obj, std::size_t size, const char* op) {
-  if (vrt::g.active && obj == gR.spin && std::strcmp(op, "exchange") == 0 && gR.before == 0) {
-    gR.holder = vrt::g.cur;
+  auto& g = vrt::g;
+  if (g.active) {
+    if (obj == gR.spin && std::strcmp(op, "exchange") == 0 && gR.before == 0) {
+      gR.holder = g.cur;
+    }
+    // The InjectFault() that follows belongs to THIS operation of THIS fiber.  The explorer's at_before / inject_second are
+    // global: if this fiber was switched out in front of the operation (a decision of --yield-at both, or parked in front
+    // of the held spinlock) they hold what the fiber that ran last left behind.  Re-establish "operation done, second
+    // InjectFault next" so that the switch after the operation is offered (or not) by the same rule every time.
+    gR.obj = obj;
+    gR.op = op;
+    if (g.opt.yield_at != 0) {
+      g.at_before = true;
+      g.inject_second = true;
+    }
   }
   if (gC == nullptr || obj != &gC->tick) {
     vrt::detail::After(obj, size, op);
+  }
+  if (g.active && obj == gR.spin && gR.pass != nullptr && std::strcmp(op, "store") == 0) {
+    // the section is over: what it left in the plain fields (nobody else has run since the store)
+    vrt::Event("z " + std::to_string(*gR.pass) + " " + std::to_string(*gR.size) + " " + std::to_string(*gR.prio));
   }
 }
 
 std::int64_t MyChoose(int kind, std::uint64_t n) {
   auto& g = vrt::g;
   if (kind == yaclib::verif::kYield && g.active && g.at_before) {
+    const bool second = g.inject_second;  // the InjectFault() after the operation (only with --yield-at after|both)
     const bool held = gR.Held();
-    if (held && g.last_obj == gR.spin && g.last_op != "store") {
+    if (!second && held && gR.obj == gR.spin && gR.op != "store") {
       // about to spin on the held lock: not a decision; come back when it is free
       if (!vrt::detail::QueueEmpty()) {
         g.at_before = false;
@@ -408,12 +442,16 @@ std::int64_t MyChoose(int kind, std::uint64_t n) {
       }
       return vrt::detail::Choose(kind, n);
     }
-    if (gR.atomic_sections && held && gR.holder == g.cur && g.last_obj != gR.rwait) {
-      g.at_before = false;
-      return 0;
-    }
-    if (gR.named_only && g.locs.find(g.last_obj) == g.locs.end()) {
-      g.at_before = false;
+    // no switch is offered at this point (evaluated separately in front of and behind the operation: behind the
+    // releasing store the lock is free, behind the acquiring exchange it is held)
+    const bool suppress = (gR.atomic_sections && held && gR.holder == g.cur && gR.obj != gR.rwait) ||
+                          (gR.named_only && g.locs.find(gR.obj) == g.locs.end());
+    if (suppress) {
+      if (second || g.opt.yield_at == 0) {
+        g.at_before = false;
+      } else {
+        g.inject_second = true;
+      }
       return 0;
     }
   }
@@ -471,6 +509,9 @@ void RunWith(const Cfg& cfg) {
   vrt::NameLoc(&c.tick, "t");  // a preemption point also under yields=named; not traced (see MyAfter)
   gR.spin = &m._lock._state;
   gR.rwait = &m._readers_wait;
+  gR.pass = &m._readers_pass;
+  gR.size = &m._readers_size;
+  gR.prio = &m._writers_prio;
   gR.blocked.clear();
   gR.holder = 0;
   gR.forced = 0;
@@ -529,7 +570,8 @@ void RunWith(const Cfg& cfg) {
   while (c.done < c.Parties()) {
     c.all_done.Wait(yaclib::detail::fiber::NoTimeoutTag{});
   }
-  vrt::Event("end");
+  vrt::Event("end " + std::to_string(m._readers_pass) + " " + std::to_string(m._readers_size) + " " +
+             std::to_string(m._writers_prio));
   if (manual != nullptr) {
     manual->Finish();
   }
@@ -555,6 +597,7 @@ void RunWith(const Cfg& cfg) {
   fs.clear();
   gR.spin = nullptr;
   gR.rwait = nullptr;
+  gR.pass = gR.size = gR.prio = nullptr;
   gC = nullptr;
 }
 
